@@ -95,7 +95,7 @@ class LinearSegment:
             odxraise(f"Physical values of linear compumethods must "
                      f"either be int or float (is: {type(physical_value).__name__})")
 
-        if abs(self.factor) < 1e-10:
+        if self.factor == 0:
             # "If factor = 0 then COMPU-INVERSE-VALUE shall be specified.
             return self.inverse_value
 
